@@ -2,7 +2,7 @@
    argument types (not only on the supported calendar range):
    days_from_civil for every int16 year and every uint8 month / day value,
    civil_from_days for every int32 day count except the top 719468 (where `z += 719468` overflows). *)
-From Tetl Require Import Lib.Base C11.Model C11.Spec C11.Core C11.Era C11.Proofs C11.ModelCal C11.SpecCal C11.ProofsCal C11.ProofsCal2.
+From Tetl Require Import Lib.Base C11.Model C11.Spec C11.Core C11.Era C11.Proofs C11.Proofs2 C11.ModelCal C11.SpecCal C11.ProofsCal C11.ProofsCal2.
 From Coq Require Import ZifyBool.
 Local Open Scope Z_scope.
 Ltac Zify.zify_post_hook ::= Z.to_euclidean_division_equations.
@@ -102,4 +102,49 @@ Proof.
   - intros Hz2. unfold civil_from_days_m, s32, chk, in_ty, imin, imax, i32, smin, smax; cbn [sgn bits].
     change (2 ^ (32 - 1)) with 2147483648.
     destruct (_ && _) eqn:E; [lia|reflexivity].
+Qed.
+
+(* ... and on that whole domain the result is the proleptic Gregorian date of the day, with the year
+   reduced to int16 by the year constructor: [civil_pure] is the calendar extended in both directions
+   (civil_pure (z + 1) = next_day (civil_pure z) for EVERY z, civil_pure 0 = 1970-01-01) *)
+Theorem civil_any_pure z : -2147483648 <= z <= 2146764179 ->
+  civil_from_days_m z = Some (let '(y, m, d) := civil_pure z in (wraps 16 y, m, d)).
+Proof.
+  intros Hz. unfold civil_from_days_m, civil_pure, cd.
+  rewrite (s32_some (z + 719468)) by lia. cbn [obind].
+  set (z' := z + 719468) in *.
+  assert (Ht : (if z' >=? 0 then Some z' else s32 (z' - 146096))
+               = Some (if z' >=? 0 then z' else z' - 146096)).
+  { destruct (z' >=? 0) eqn:E; [reflexivity|]. apply s32_some. unfold z'. lia. }
+  rewrite Ht. cbn [obind].
+  assert (Hq : Z.quot (if z' >=? 0 then z' else z' - 146096) 146097 = z' / 146097).
+  { destruct (z' >=? 0) eqn:E; lia. }
+  rewrite Hq. set (era := z' / 146097) in *.
+  assert (Hera : -14695 <= era <= 14699) by (unfold era, z'; lia).
+  rewrite (s32_some (era * 146097)) by lia. cbn [obind].
+  assert (Hdoe : z' - era * 146097 = z' mod 146097) by (unfold era; lia).
+  rewrite (s32_some (z' - era * 146097)) by (rewrite Hdoe; lia). cbn [obind].
+  rewrite Hdoe. set (doe := z' mod 146097) in *.
+  assert (Hd : 0 <= doe < 146097) by (unfold doe; lia).
+  rewrite (u32w_small doe) by lia.
+  pose proof (sweepA_spec doe Hd) as HA. unfold sweepA in HA.
+  destruct (civil_doe_m doe) as [[yoe m] d].
+  pose proof (dim_bounds (yoe + c01 m) m) as Hb.
+  pose proof (c01_range m) as Hc.
+  rewrite (s32_some (era * 400)) by lia. cbn [obind].
+  rewrite (wraps32_small yoe) by lia.
+  rewrite (s32_some (yoe + era * 400)) by lia. cbn [obind].
+  fold (c01 m).
+  rewrite (s32_some (yoe + era * 400 + c01 m)) by lia. cbn [obind].
+  rewrite !wrapu8_small by lia.
+  f_equal. f_equal. f_equal. f_equal. lia.
+Qed.
+
+Theorem civil_pure_calendar :
+  civil_pure 0 = epoch /\ (forall z, civil_pure (z + 1) = next_day (civil_pure z))
+  /\ (forall z, day_lo <= z <= day_hi -> civil_pure z = greg z).
+Proof.
+  split; [exact civil_pure_epoch|]. split; [exact civil_pure_succ|].
+  intros z Hz. pose proof (civil_is_gregorian z Hz) as H. rewrite (civil_m_pure z Hz) in H.
+  inversion H as [H1]. unfold greg. exact H1.
 Qed.
